@@ -22,6 +22,10 @@ THEOREMS = [
     "PorepyVerif.C36.chain_eq_product",
     "PorepyVerif.C36.chain_eq_product_vec",
     "PorepyVerif.C36.pending_eq",
+    "PorepyVerif.C36.pending_div_ad",
+    "PorepyVerif.C36.pending_pow_ad",
+    "PorepyVerif.C36.div_rule_secant",
+    "PorepyVerif.C36.transpose_involutive",
     "PorepyVerif.C36.slicer_eq_spec",
     "PorepyVerif.C36.run_eq_specRun",
     "PorepyVerif.C36.ropNow_eq",
@@ -45,6 +49,8 @@ TRUSTED = [
     "modelled, not verified: numpy fancy indexing `x[dom]`, `vec[ran] = ...` (sequential assignment), np.argsort / np.cumsum / np.take, "
     "scipy row indexing A[dom] and tocsr() (csc input is converted by scipy before it reaches the model), scipy / numpy / AdArray arithmetic "
     "used for the pending operation `a ∘ sliced` (specLeft in the model mirrors it for the generated operand combinations)",
+    "forward-mode rules on the sliced AdArray for s / x (exact: -s/x^2) and s ** x (integral x; ln s is not rational: the binary64 value of "
+    "np.log(s) is passed to the model as data, Const.scalLn); other AdArray arithmetic is C01's subject",
     "Python operator dispatch (which of a.__op__ / S.__rop__ is called); 1-d numpy arrays as LEFT operands do not dispatch to the slicer "
     "(documented in the class), so the harness calls S.__rop__(array) directly for those",
     "the slicer's object graph (pending operand = reference to another slicer) is modelled by value; absence of mutation is checked by "
@@ -52,7 +58,8 @@ TRUSTED = [
 ]
 EXPLANATION = ("FULL: model = constructor, _slice_vector, _slice_matrix (raw CSR arrays, argsort/cumsum algorithm), AdArray and scalar handling, transpose, copy, "
                "reverse operations and slicer chaining; theorems: every slicing step equals multiplication by the explicit projection matrix "
-               "(vector, 2-d, CSR incl. storage layout, AdArray value+Jacobian, scalar), transposition, chaining, pending operations, and "
+               "(vector, 2-d, CSR incl. storage layout, AdArray value+Jacobian, scalar), transposition (incl. involutivity), chaining, pending operations "
+               "(incl. s / AdArray and s ** AdArray by the forward-mode rules), and "
                "run_eq_specRun for whole programs. Two open findings (a second pending operation overwrites the first; transposing a chain drops it): "
                "the model follows the property there.")
 ASSUMPTIONS = ["index lists are duplicate-free ('permutations, injections, restrictions'; Core.Good) for the program-level theorem; forward slicing needs only distinct range indices",
@@ -83,7 +90,7 @@ def _sizes(dom, ran, rsize, dsize):
 def _gen_new(rng, i, n):
     """A constructor statement for a slicer whose operand has n rows. Returns (stmt, info|None)."""
     mode = rng.choice(["restrict"] * 6 + ["restrict_rs"] * 4 + ["prolong"] * 4 + ["both"] * 6 + ["perm"] * 4 + ["perm2"] * 4
-                      + ["empty"] * 2 + ["dupdom"] * 2 + ["bad"])
+                      + ["inplace"] * 4 + ["empty"] * 2 + ["dupdom"] * 2 + ["bad"])
     dom = ran = rsize = dsize = None
     if n == 0 and mode not in ("empty", "bad"):
         mode = "empty"
@@ -107,6 +114,13 @@ def _gen_new(rng, i, n):
         ran = rng.sample(range(m), k)
         if rng.random() < 0.6:
             rsize = m
+    elif mode == "inplace":
+        # dom == ran, a proper subset of arange(n), sizes n: keeps the listed rows in place and zeroes the others
+        k = rng.randint(1, max(1, n - 1))
+        dom = sorted(rng.sample(range(n), k)) if rng.random() < 0.7 else rng.sample(range(n), k)
+        ran = list(dom)
+        rsize = n
+        dsize = n if rng.random() < 0.7 else None
     elif mode == "perm":
         dom = rng.sample(range(n), n)
     elif mode == "perm2":
@@ -175,7 +189,7 @@ def _gen_y(rng, kind, n, powdata):
 
 ALLOWED = {  # operand kinds y for which `a sym (S @ y)` is meaningful Python
     ("s", "+"): {"s", "v", "a", "ad"}, ("s", "-"): {"s", "v", "a", "ad"}, ("s", "*"): {"s", "v", "a", "csr", "ad"},
-    ("s", "/"): {"s", "v", "a"}, ("s", "**"): {"s", "v", "a"},
+    ("s", "/"): {"s", "v", "a", "ad"}, ("s", "**"): {"s", "v", "a", "ad"},  # ad with **: positive base only (np.log)
     ("v", "+"): {"s", "v"}, ("v", "-"): {"s", "v"}, ("v", "*"): {"s", "v"}, ("v", "/"): {"s", "v"}, ("v", "**"): {"s", "v"},
     ("v", "@"): {"s", "v", "a"},
     ("m", "@"): {"s", "v", "a", "csr", "ad"},
@@ -238,6 +252,8 @@ def gen_case(rng, tier):
                 if val == 0 and sym in ("**", "/") or (sym == "**" and val < 0 and not isint):
                     val = Fraction(3, 2) if not isint else Fraction(2)
                 st["a"] = {"k": "s", "v": frac(val), "int": bool(isint)}
+                if sym == "**" and val > 0:  # binary64 value of np.log(base): the only non-rational ingredient of base ** AdArray
+                    st["a"]["ln"] = frac(float(np.log(float(val))))
                 st["via"] = "op" if rng.random() < 0.85 else "dunder"
             elif ak == "v":
                 wl = n_out if (rng.random() < 0.97 or n_out < 2) else n_out + 2  # (length 1 would broadcast)
@@ -253,7 +269,8 @@ def gen_case(rng, tier):
                 n_out = p
             stmts.append(st)
             vars_.append({"i": nxt, "n_in": v["n_in"], "n_out": None if final else n_out, "T_out": v["T_out"], "good": v["good"], "full": v["full"],
-                          "kinds": v["kinds"] & ALLOWED[(ak, sym)], "pend": True, "left": True, "final": final, "len": v["len"],
+                          "kinds": (v["kinds"] & ALLOWED[(ak, sym)]) - ({"ad"} if (sym == "**" and "ln" not in st["a"]) else set()),
+                          "pend": True, "left": True, "final": final, "len": v["len"],
                           "syms": v["syms"] | {sym}, "site": v["site"] or v["pend"]})
             nxt += 1
         elif choice == "chain":
@@ -274,6 +291,8 @@ def gen_case(rng, tier):
             if not kinds:
                 continue
             kind = rng.choice(kinds)
+            if "ad" in kinds and (v["syms"] & {"/", "**"}) and rng.random() < 0.4:
+                kind = "ad"  # forward-mode rules of s / x and s ** x on the sliced array
             n = v["n_in"]
             r = rng.random()
             if r < 0.04 and n > 0:
@@ -367,6 +386,8 @@ def _kind_of(o):
 def _pending_list(S):
     if hasattr(S, "_pending"):  # layout of the proposed repair (list of pending pairs)
         return list(S._pending)
+    if hasattr(S, "_pending_inner"):  # layout of the minimal repair: earlier pairs, then the current one
+        return list(S._pending_inner) + ([(S._pending_operand, S._pending_operation)] if S._pending_operand is not None else [])
     if S._pending_operand is None:
         return []
     return [(S._pending_operand, S._pending_operation)]
@@ -756,6 +777,8 @@ def stats(cases, impl_outs):
                     c["new:onto" if core["onto"] else "new:scatter"] += 1
                     if not core["dom"]:
                         c["new:empty"] += 1
+                    if core["dom"] == core["ran"] and core["dom"] != list(range(core["rsize"])):
+                        c["new:inplace-restriction(dom==ran!=arange)"] += 1
                     if len(set(core["dom"])) < len(core["dom"]):
                         c["new:repeated-domain-index"] += 1
                 if st["op"] == "chain":
